@@ -778,3 +778,58 @@ def clip_list_ranges(pat):
         if want is not None:
             conds.append(disj([conj([le(r.StartGlyphID, gid), le(gid, r.EndGlyphID)]) for r in recs if r.ClipBox.as_tuple() == boxes[want].as_tuple()]))
     ob('spec:every-glyph-gets-exactly-its-own-box', conj(conds))
+
+
+# ------------------------------------------------------------------------------------------------ ClassDef as an independent reader sees it
+def spec_class_of(d, gid):
+    """class of glyph id gid (OpenType spec, ClassDef formats 1 and 2; 0 when not listed); d = list of byte values"""
+    fmt = int(be_uint(d[0:2]))
+    res = 0
+    if fmt == 1:
+        start, n = be_uint(d[2:4]), int(be_uint(d[4:6]))
+        for i in reversed(range(n)):
+            res = ite(eq(gid, start + i), be_uint(d[6 + 2 * i:8 + 2 * i]), res)
+        return res
+    n = int(be_uint(d[2:4]))
+    for i in reversed(range(n)):
+        o = 4 + 6 * i
+        s, e, c = be_uint(d[o:o + 2]), be_uint(d[o + 2:o + 4]), be_uint(d[o + 4:o + 6])
+        res = ite(conj([le(s, gid), le(gid, e)]), c, res)
+    return res
+
+
+CLASSDEF_PATTERNS = {
+    'two-classes': {'g0': 1, 'g1': 1, 'g2': 2},
+    'one-class': {'g0': 1, 'g1': 1, 'g2': 1, 'g3': 1},
+    'three': {'g0': 1, 'g1': 2, 'g2': 3, 'g3': 1},
+    'with-zero': {'g0': 2, 'g1': 0, 'g2': 2},
+}
+
+
+@kernel('C02', funcs=['ttLib/tables/otTables.py:ClassDef.preWrite', 'ttLib/tables/otBase.py:BaseTable.compile', 'ttLib/tables/otBase.py:OTTableWriter.getAllData',
+                      'ttLib/tables/otTables.py:ClassDef.postRead'],
+        bounds='ClassDef over a 6-glyph font whose glyph ids are a SYMBOLIC permutation, 3-4 classified glyphs from 4 patterns (shared classes, one class, three classes, an '
+               'explicit class 0): in the compiled bytes, read by the OpenType rule (format 1: array from StartGlyphID; format 2: class ranges), every glyph has exactly its '
+               'class and unlisted glyphs class 0 - whatever runs the glyph ids form and whichever format the compiler picks; ranges sorted and disjoint; fontTools own reader '
+               'returns the same classes',
+        shims=['struct', 'array'], quick=[dict(pat='two-classes'), dict(pat='three')], thorough=[dict(pat=p) for p in CLASSDEF_PATTERNS], conc_cap=60, max_paths=200000)
+def classdef_compile_spec(pat):
+    font = SymFont(6)
+    cd = OT.ClassDef()
+    cd.classDefs = dict(CLASSDEF_PATTERNS[pat])
+    w = OB.OTTableWriter()
+    cd.compile(w, font)
+    data = w.getAllData()
+    d = blist(data)
+    fmt = int(be_uint(d[0:2]))
+    observe('format', fmt)
+    observe('length', len(d))
+    ob('spec:class-of-every-glyph', conj([eq(spec_class_of(d, font.getGlyphID(n)), CLASSDEF_PATTERNS[pat].get(n, 0)) for n in font.names]))
+    if fmt == 2:
+        n = int(be_uint(d[2:4]))
+        ob('spec:ranges-sorted-and-disjoint', conj([le(be_uint(d[4 + 6 * i:6 + 6 * i]), be_uint(d[6 + 6 * i:8 + 6 * i])) for i in range(n)]
+                                                   + [lt(be_uint(d[6 + 6 * i:8 + 6 * i]), be_uint(d[10 + 6 * i:12 + 6 * i])) for i in range(n - 1)]))
+    cd2 = OT.ClassDef()
+    cd2.decompile(OB.OTTableReader(data), font)
+    want = {k: v for k, v in CLASSDEF_PATTERNS[pat].items() if v}
+    ob('decompile:same-classes', {k: v for k, v in cd2.classDefs.items() if v} == want)
